@@ -194,13 +194,15 @@ PROPS_C16_MC = True
 PROPS["C16"] = conv_entry(
     "constants of every matrix type (BITS, BYTES, MIN, MAX, ZERO, ONE..TEN, NEG_ONE..NEG_TEN, Default) and the seven alias pairs; cross-digit-type casts at equal width; "
     "narrow/wide commutation of add, sub, mul, div, rem, pow, shl, cmp, decimal print and parse over 16 (narrow, wide) configuration pairs; "
-    "the value-level drivers of C01, C02, C03, C05, C06, C08, C10, C11, C12, C14 re-run at 64 and 192 bits (four digit types each) with one outcome group required per call; "
+    "the value-level drivers of C01, C02, C03, C05, C06, C08, C10, C11, C12, C14, C15 re-run at 64, 128 or 192 bits (four digit types each) with one outcome group required per call; "
     "non-trivial = an event executed on at least two digit types, a narrow/wide event, or a constant other than ZERO",
     lambda e: True,
     extra={"quick": [("arith", "C01", [64]), ("arith", "C02", [192, 2080]), ("arith", "C03", [192]), ("bits", "C05", [192]), ("bits", "C06", [64]), ("arith", "C08", [64]),
-                     ("text", "C10", [64]), ("text", "C11", [192]), ("text", "C12", [64]), ("float", "C14", [192])],
+                     ("text", "C10", [64]), ("text", "C11", [192]), ("text", "C12", [64]), ("float", "C14", [192]),
+                     ("conv", "C15", [64, 128])],
            "thorough": [(b, p, [32, 64, 96, 128, 192, 256]) for (b, p) in [("arith", "C01"), ("arith", "C02"), ("arith", "C03"), ("bits", "C05"), ("bits", "C06"), ("bits", "C07"), ("arith", "C08"),
-                                                                        ("text", "C10"), ("text", "C11"), ("text", "C12"), ("float", "C14"), ("float", "C19"), ("traits", "C18")]]})
+                                                                        ("text", "C10"), ("text", "C11"), ("text", "C12"), ("float", "C14"), ("float", "C19"), ("traits", "C18"),
+                                                                        ("conv", "C15")]]})
 
 def text_entry(rule, nontrivial, **kw):
     d = {"bin": "text", "modes": {"quick": ["debug"], "thorough": ["debug", "release"]}, "prims": True,
